@@ -238,3 +238,7 @@ mod tests {
         assert_eq!(format!("{a}"), "  5.0000000000\n  6.0000000000");
     }
 }
+
+#[cfg(all(test, pendulum_project_ntpd_rs_verif))]
+#[path = "/verif/harness/ntp-proto/hook_algorithm__kalman__matrix.rs"]
+mod verif_hook;
